@@ -581,23 +581,24 @@ fn witnesses() -> Vec<(&'static str, Input)> {
 }
 
 fn random_input(rng: &mut Rng, class: u64) -> Input {
-    let threads = rng.range(2, 4) as usize;
-    let size = match class {
-        0 => rng.range(1, 2),
-        1 => rng.range(1, 3),
-        _ => rng.range(0, 3),
-    } as usize;
+    let (threads, size, max_len) = match class {
+        0 => (rng.range(2, 3), rng.range(1, 2), 20),
+        1 => (rng.range(2, 4), rng.range(1, 3), 40),
+        _ => (rng.range(3, 6), rng.range(0, 4), 80),
+    };
+    let (threads, size) = (threads as usize, size as usize);
     let init = match rng.below(6) {
         0 => 0,
         1 => size + rng.range(1, 2) as usize, // over-full initial pool (allowed by `new`)
         _ => size,
     };
-    let len = rng.range(6, if class == 2 { 40 } else { 26 }) as usize;
+    let len = rng.range(6, max_len) as usize;
     let mut sched = vec![];
     // a weighted walk: threads tend to continue what they started for a few steps
     let mut cur = rng.below(threads as u64) as usize;
+    let stick = rng.range(1, 3);
     for _ in 0..len {
-        if rng.chance(1, 2) {
+        if rng.chance(1, stick + 1) {
             cur = rng.below(threads as u64) as usize;
         }
         let ci = match rng.below(12) {
@@ -623,6 +624,115 @@ fn model_term(inp: &Input, log: &[Exec]) -> String {
     format!("C18.Model.run {} {} {} [{}]", coq::n(inp.size as u64), inp.init, inp.threads, evs.join("; "))
 }
 
+// ---------------------------------------------------------------------------------- source shape
+
+const PROVERS: [(&str, &str); 2] = [
+    ("mithril-aggregator/src/services/prover.rs", include_str!("/repo/mithril-aggregator/src/services/prover.rs")),
+    ("mithril-aggregator/src/services/prover_legacy.rs", include_str!("/repo/mithril-aggregator/src/services/prover_legacy.rs")),
+];
+
+fn method_code(m: &str) -> i128 {
+    match m {
+        "size" => 0,
+        "clear_and_increment_discriminant" => 1,
+        "give_back_resource" => 2,
+        "acquire_resource" => 3,
+        "give_back_resource_pool_item" => 4,
+        "set_discriminant" => 5,
+        "clear" => 6,
+        "discriminant" => 7,
+        "count" => 8,
+        "reset_available_resources" => 9,
+        _ => 99,
+    }
+}
+
+/// The methods called on `mk_map_pool`, in textual order, inside / outside the body of the
+/// `compute_cache` implementation (non-test code only).
+fn pool_calls(src: &str) -> (Vec<String>, Vec<String>) {
+    let code = match src.find("#[cfg(test)]\nmod tests") {
+        Some(i) => &src[..i],
+        None => src,
+    };
+    let calls_in = |text: &str| -> Vec<String> {
+        let mut v = vec![];
+        let mut rest = text;
+        while let Some(i) = rest.find("mk_map_pool") {
+            rest = &rest[i + "mk_map_pool".len()..];
+            let t = rest.trim_start();
+            if let Some(t) = t.strip_prefix('.') {
+                let t = t.trim_start();
+                let name: String = t.chars().take_while(|c| c.is_alphanumeric() || *c == '_').collect();
+                if t[name.len()..].trim_start().starts_with('(') {
+                    v.push(name);
+                }
+            }
+        }
+        v
+    };
+    // body of the implementation (the declaration in the trait ends with `;`)
+    let mut inside = String::new();
+    let mut outside = String::new();
+    let mut rest = code;
+    while let Some(i) = rest.find("fn compute_cache(") {
+        outside.push_str(&rest[..i]);
+        let after = &rest[i..];
+        let semi = after.find(';').unwrap_or(usize::MAX);
+        let brace = after.find('{').unwrap_or(usize::MAX);
+        if semi < brace {
+            rest = &after[semi..];
+            continue;
+        }
+        let mut depth = 0i32;
+        let mut end = after.len();
+        for (k, ch) in after.char_indices().skip(brace) {
+            if ch == '{' {
+                depth += 1;
+            } else if ch == '}' {
+                depth -= 1;
+                if depth == 0 {
+                    end = k + 1;
+                    break;
+                }
+            }
+        }
+        inside.push_str(&after[brace..end]);
+        rest = &after[end..];
+    }
+    outside.push_str(rest);
+    let mut out = calls_in(&outside);
+    out.sort_by_key(|m| method_code(m));
+    out.dedup();
+    (calls_in(&inside), out)
+}
+
+fn source_shape_case(id: u64, path: &str, src: &str) -> Case {
+    let (inside, outside) = pool_calls(src);
+    let mut why = None;
+    let renew = inside.iter().position(|m| m == "clear_and_increment_discriminant");
+    let first_fill = inside.iter().position(|m| m == "give_back_resource");
+    if inside.iter().any(|m| m == "set_discriminant" || m == "clear") {
+        why = Some(format!("{}: compute_cache refreshes the pool with separate set_discriminant / clear calls (not atomic): {:?}", path, inside));
+    } else if renew.is_none() || first_fill.map_or(false, |f| f < renew.unwrap()) {
+        why = Some(format!("{}: compute_cache does not start a new generation before refilling the pool: {:?}", path, inside));
+    } else if outside.iter().any(|m| m == "set_discriminant" || m == "clear" || m == "clear_and_increment_discriminant" || m == "give_back_resource") {
+        why = Some(format!("{}: the pool generation is manipulated outside compute_cache: {:?}", path, outside));
+    }
+    let codes = |v: &Vec<String>| coq::ol(&v.iter().map(|m| coq::oz(method_code(m))).collect::<Vec<_>>());
+    Case {
+        id,
+        kind: "source-shape".into(),
+        desc: serde_json::json!({"file": path, "compute_cache_calls": inside, "other_calls": outside}),
+        model: Some("C18.Model.prover_calls".into()),
+        impl_obs: coq::ol(&[codes(&inside), codes(&outside)]),
+        holds: Some(why.is_none()),
+        why,
+        known: None,
+        nontrivial: false,
+        key: format!("shape/{}", path),
+    }
+}
+
 fn fnv(s: &str) -> u64 {
     s.bytes().fold(0xcbf29ce484222325u64, |h, b| (h ^ b as u64).wrapping_mul(0x100000001b3))
 }
@@ -641,9 +751,32 @@ fn main() {
         inputs.push((["random-small", "random-medium", "random-wide"][class as usize].to_string(), random_input(&mut r, class)));
     }
 
-    for (kind, inp) in inputs {
+    for (path, src) in PROVERS {
         let Some(id) = sink.wants() else { continue };
-        let r = run_impl(&inp);
+        sink.push(source_shape_case(id, path, src));
+    }
+
+    // which cases are wanted (ids are reserved in order whether or not they run)
+    let wanted: Vec<Option<u64>> = inputs.iter().map(|_| sink.wants()).collect();
+    let results: Vec<Mutex<Option<RunResult>>> = inputs.iter().map(|_| Mutex::new(None)).collect();
+    let next = AtomicU64::new(0);
+    let runners = if args.thorough { 8 } else { 4 };
+    std::thread::scope(|sc| {
+        for _ in 0..runners {
+            sc.spawn(|| loop {
+                let k = next.fetch_add(1, Ordering::SeqCst) as usize;
+                if k >= inputs.len() {
+                    break;
+                }
+                if wanted[k].is_some() {
+                    *results[k].lock().unwrap() = Some(run_impl(&inputs[k].1));
+                }
+            });
+        }
+    });
+    for (k, (kind, inp)) in inputs.into_iter().enumerate() {
+        let Some(id) = wanted[k] else { continue };
+        let r = results[k].lock().unwrap().take().unwrap();
         let key = format!("{}/{}/{}/{:016x}", inp.size, inp.init, inp.threads, fnv(&format!("{:?}", r.log)));
         sink.push(Case {
             id,
